@@ -9,11 +9,22 @@
 //!  * `terms`    `serialize_terms` over ALL 2^N term subsets (ascending + one shuffled order) for N <= 8
 //!  * `rnsp`     the Rnsp* wrappers (component-wise serialization over several plain moduli)
 //!
+//! production-size sections (same oracle; every dimension the serializers loop over is driven across 8/9, 16/17, .. 4096/4097,
+//! 8192, 65536 by structured families):
+//!  * `big-primes`  chains of 1..19 (24, 31..33, 63, 64) primes at N = 4 / 8 x every object kind (+ `levelbox`)
+//!  * `big-words`   (N <= 32768, chain, sizes) grids whose totals size*primes*N of data words lie on both sides of 1024, 4096,
+//!                  8192, 65536, in all three ciphertext formats, seeded and expanded; plaintexts / vectors of exactly L words;
+//!                  keys at production degree
+//!  * `big-terms`   `serialize_terms` over term FAMILIES (singles, prefixes, suffixes, combs, descending, shuffled) for N = 32..8192
+//!  * `big-shapes`  containers of every length 0..20, boxes, ragged shapes, lengths up to 4097
+//!  * `big-rnsp`    Rnsp* wrappers with 1..64 primes, 1..17 plain moduli and at N = 256..4096
+//!
 //! The deciding step is exhaustive enumeration; nothing is sampled. `cfg.seed` only selects the
 //! generic fill constants of crafted residues.
 
 use crate::engine::*;
 use crate::he::{self, Kit, ParamSpec, Scheme};
+use crate::refmodel::ntt::{fast_intt, fast_ntt};
 use crate::refmodel::poly::naive_ntt;
 use crate::refmodel::ser::{fill, naive_intt};
 use heathcliff::app::matmul::cipher3d::{Cipher3d, Plain3d};
@@ -35,11 +46,14 @@ pub fn describe(rep: &Report) {
          stream followed by a sentinel byte and reads them back twice (same context; context rebuilt from the serialized \
          parameters). traces_validated_against_impl counts single serialize / deserialize calls compared with the oracle. \
          non-trivial = at least one variant was written and restored. terms: every subset of {0..N-1} in ascending and one \
-         shuffled order.",
+         shuffled order. big-* sections: the same oracle at production sizes - case = (parameter set, kind / ciphertext variant / \
+         term family / container kind, share); many-prime chains at N = 4, 8; N up to 8192 (32768) with few primes; structured \
+         families (every single term, prefix, suffix, comb; every container length and box) in place of full products.",
     );
     rep.assume("streams are complete in-memory buffers (I/O faults are C15)");
     rep.assume("the reference for seeded objects is ExpandSeed::expand_seed of the library applied element-wise (that IS the property's definition of the expanded form); the reference NTT/INTT of the selected-terms oracle is the naive O(N^2) evaluation map with the root of the context's table");
     rep.assume("crafted ciphertexts/plaintexts (public constructors, residues below the moduli incl. q-1 and 0) stand for evaluator results of sizes 3..16 and of both representations that tiny parameter sets cannot produce by real evaluation");
+    rep.assume("big-* sections: for N > 64 (big-words: N > 16) the reference transform of the selected-terms oracle is refmodel::ntt::fast_ntt / fast_intt (O(N log N), validated against the by-definition transform in the harness self-test) with the root of the context's table; term lists are the structured families named in the section bound, not all 2^N subsets; total data-word counts are those reachable as size*primes*N (sizes 2..16, 1..64 primes) - exact counts 2^k-1 / 2^k+1 are reached by plaintexts, word vectors and the full format of seeded ciphertexts (primes*N + 9)");
     rep.assume("ExpandSeed of the Cipher1d/2d/3d containers is judged on homogeneous containers only (mixed seeded/unseeded rows are reported in REPORT.md as an observation)");
 }
 
@@ -627,9 +641,16 @@ struct TermsRef {
     c0_coeff: Vec<u64>,
     roots: Vec<(u64, u64)>,
     /// pw[j][i*n + t] = (psi_j^(2*brv(i)+1))^t mod q_j: the evaluation map of `naive_ntt` as a table
+    /// (empty when `fast`)
     pw: Vec<Vec<u64>>,
+    /// N > 64 (production-size sections): the O(N log N) reference transform `refmodel::ntt::fast_ntt` /
+    /// `fast_intt` (validated against the by-definition transform in the self-test) replaces the O(N^2) tables
+    fast: bool,
 }
 fn terms_ref(ct: &Ciphertext, cx: &HeContext) -> TermsRef {
+    terms_ref_with(ct, cx, ct.poly_modulus_degree() > 64)
+}
+fn terms_ref_with(ct: &Ciphertext, cx: &HeContext, fast: bool) -> TermsRef {
     let cd = cx.get_context_data(ct.parms_id()).expect("level of the ciphertext");
     let n = ct.poly_modulus_degree();
     let roots: Vec<(u64, u64)> = cd.parms().coeff_modulus().iter().zip(cd.small_ntt_tables()).map(|(m, t)| (t.root(), m.value())).collect();
@@ -637,8 +658,9 @@ fn terms_ref(ct: &Ciphertext, cx: &HeContext) -> TermsRef {
     for (j, &(psi, q)) in roots.iter().enumerate() {
         let comp = ct.poly_component(0, j);
         if ct.is_ntt_form() {
-            let co = naive_intt(comp, psi, q);
-            assert_eq!(naive_ntt(&co, psi, q), comp.to_vec(), "reference NTT pair is not a bijection");
+            let co = if fast { fast_intt(comp, psi, q) } else { naive_intt(comp, psi, q) };
+            let back = if fast { fast_ntt(&co, psi, q) } else { naive_ntt(&co, psi, q) };
+            assert_eq!(back, comp.to_vec(), "reference NTT pair is not a bijection");
             c0.extend(co);
         } else {
             c0.extend_from_slice(comp);
@@ -646,7 +668,7 @@ fn terms_ref(ct: &Ciphertext, cx: &HeContext) -> TermsRef {
     }
     let bits = n.trailing_zeros();
     let mut pw = vec![];
-    if ct.is_ntt_form() {
+    if ct.is_ntt_form() && !fast {
         for &(psi, q) in &roots {
             let mut tab = vec![0u64; n * n];
             for i in 0..n {
@@ -660,8 +682,8 @@ fn terms_ref(ct: &Ciphertext, cx: &HeContext) -> TermsRef {
             pw.push(tab);
         }
     }
-    let tr = TermsRef { c0_coeff: c0, roots, pw };
-    if ct.is_ntt_form() {
+    let tr = TermsRef { c0_coeff: c0, roots, pw, fast };
+    if ct.is_ntt_form() && !fast {
         // the table form of the evaluation map agrees with naive_ntt on the full polynomial
         let all: Vec<usize> = (0..n).collect();
         for j in 0..tr.roots.len() {
@@ -673,6 +695,13 @@ fn terms_ref(ct: &Ciphertext, cx: &HeContext) -> TermsRef {
 /// NTT-form component j of the polynomial that keeps only the coefficients listed in `terms`
 fn eval_terms(tr: &TermsRef, j: usize, n: usize, terms: &[usize]) -> Vec<u64> {
     let q = tr.roots[j].1;
+    if tr.fast {
+        let mut a = vec![0u64; n];
+        for &t in terms {
+            a[t] = tr.c0_coeff[j * n + t];
+        }
+        return fast_ntt(&a, tr.roots[j].0, q);
+    }
     let tab = &tr.pw[j];
     (0..n)
         .map(|i| {
@@ -1517,9 +1546,12 @@ fn setup(sec: &str, spec: &ParamSpec) -> Result<(Kit, Ctxs), CaseOut> {
 }
 
 fn check_objects(c: &Case, seed: u64) -> CaseOut {
+    check_objects_in("objects", c, seed)
+}
+
+fn check_objects_in(sec: &str, c: &Case, seed: u64) -> CaseOut {
     let tag = h64(&serde_json::to_string(c).unwrap_or_default());
     he::env_real(seed, tag);
-    let sec = "objects";
     let (kit, ctxs) = match setup(sec, &c.spec) {
         Ok(x) => x,
         Err(o) => return o,
@@ -1536,6 +1568,7 @@ fn check_objects(c: &Case, seed: u64) -> CaseOut {
         "polyser" => kind_polyser(sec, &kit, &ctxs, seed, &mut st),
         "containers" => kind_containers(sec, &kit, &ctxs, seed, &mut st),
         "use" => kind_use(sec, &kit, &ctxs, seed, tag, &mut st),
+        "levelbox" => kind_levelbox(sec, &kit, &ctxs, seed, &mut st),
         k => panic!("unknown kind {k}"),
     };
     finish_case(&format!("{}:{:?}", c.kind, c.spec.scheme), st, r)
@@ -1679,6 +1712,13 @@ pub struct RCase {
     pub q: Vec<u64>,
     /// plain moduli, one HeContext per entry
     pub ts: Vec<u64>,
+    /// production-size variant (section `big-rnsp`): crafted ciphertexts at EVERY level, vectors of 0..20 ciphertexts,
+    /// structured term families instead of all subsets
+    #[serde(default, skip_serializing_if = "is_false")]
+    pub big: bool,
+}
+fn is_false(b: &bool) -> bool {
+    !*b
 }
 
 fn rc_diff(a: &RnspCiphertext, b: &RnspCiphertext) -> D {
@@ -1824,9 +1864,12 @@ rnsp_keys!(RRlk, RnspRelinKeys, RelinKeys, "RnspRelinKeys");
 rnsp_keys!(RGlk, RnspGaloisKeys, GaloisKeys, "RnspGaloisKeys");
 
 fn check_rnsp(c: &RCase, seed: u64) -> CaseOut {
+    check_rnsp_in("rnsp", c, seed)
+}
+
+fn check_rnsp_in(sec: &str, c: &RCase, seed: u64) -> CaseOut {
     let tag = h64(&serde_json::to_string(c).unwrap_or_default());
     he::env_real(seed, tag);
-    let sec = "rnsp";
     let parms = RnspEncryptionParameters::new(c.scheme.ty())
         .set_poly_modulus_degree(c.n)
         .set_coeff_modulus(c.q.iter().map(|&v| Modulus::new(v)).collect())
@@ -1920,12 +1963,57 @@ fn check_rnsp(c: &RCase, seed: u64) -> CaseOut {
                 .collect();
             cts.push(("crafted".into(), format!("crafted size={size} ntt={ntt}"), RnspCiphertext::from_raw_parts(comps)));
         }
+        if c.big {
+            // one crafted ciphertext per level (key level included), sizes and representations cycling
+            // (a component whose plain modulus exceeds the smallest primes has a shorter chain: the levels all have)
+            let nlev = a.components.iter().map(|x| level_ids(x).len()).min().unwrap_or(0);
+            for li in 0..nlev {
+                let (size, ntt) = ([2usize, 3, 4, 16][li % 4], li % 2 == 1);
+                let mut lname = String::new();
+                let comps = a
+                    .components
+                    .iter()
+                    .enumerate()
+                    .map(|(j, x)| {
+                        let (l, id) = level_ids(x)[li].clone();
+                        lname = l;
+                        let mut ct = crafted_ct(x, &id, size, ntt, seed, 950 + (li * 8 + j) as u64);
+                        if c.scheme == Scheme::BGV {
+                            ct.set_correction_factor(1 + (li as u64 % (c.ts[j] - 1)));
+                        }
+                        ct
+                    })
+                    .collect();
+                cts.push(("crafted-level".into(), format!("crafted level={lname} size={size} ntt={ntt}"), RnspCiphertext::from_raw_parts(comps)));
+            }
+        }
         stream_check(sec, &wrap(cts.clone(), RC), &ctxs, &mut st)?;
         stream_check(sec, &wrap(cts.clone(), RCFull), &ctxs, &mut st)?;
         let all: Vec<RnspCiphertext> = cts.iter().map(|x| x.2.clone()).collect();
-        stream_check(sec, &[item("empty", "empty vector", RVec(vec![])), item("many", "all ciphertext variants", RVec(all))], &ctxs, &mut st)?;
-        // selected terms: all subsets for N <= 8
+        stream_check(sec, &[item("empty", "empty vector", RVec(vec![])), item("many", "all ciphertext variants", RVec(all.clone()))], &ctxs, &mut st)?;
         let n = c.n;
+        if c.big {
+            // vectors of every length 0..20 (heterogeneous elements), back to back in one stream
+            let vecs: Vec<Item<RVec>> = (0..=20usize).map(|len| item("length", format!("vector of {len} ciphertexts"), RVec((0..len).map(|i| all[(i + len) % all.len()].clone()).collect()))).collect();
+            stream_check(sec, &vecs, &ctxs, &mut st)?;
+            // selected terms: structured families (the complete families on single ciphertexts are section big-terms)
+            let allt: Vec<usize> = (0..n).collect();
+            let mut sets: Vec<Vec<usize>> = vec![vec![], vec![0], vec![n - 1], vec![n - 1, 0], allt.clone(), shuffled(&allt), (0..n / 2).collect(), (n / 2..n).collect()];
+            for s in [2usize, 3, 8, 9] {
+                if s < n {
+                    sets.push((0..n).step_by(s).collect());
+                    sets.push((s - 1..n).step_by(s).collect());
+                }
+            }
+            let mut items = vec![];
+            for (class, label, ct) in &cts {
+                for ts in &sets {
+                    items.push(item(class, format!("{label}, {} terms", ts.len()), RCTerms { c: ct.clone(), terms: ts.clone() }));
+                }
+            }
+            return stream_check(sec, &items, &ctxs, &mut st);
+        }
+        // selected terms: all subsets for N <= 8
         let masks: Vec<u32> = if n <= 8 { (0..1u32 << n).collect() } else { vec![0, 1, (1 << n) - 1] };
         let mut items = vec![];
         for (class, label, ct) in &cts {
@@ -2017,6 +2105,1050 @@ pub fn specs(deep: bool) -> Vec<ParamSpec> {
     out
 }
 
+// ---------------------------------------------------------------------------------------------
+// production-size sections (big-*): every dimension the serializers loop over, count or index a table with is
+// driven across the boundaries 8/9, 16/17, 32/33, 64/65, ... 4096/4097, 8192, 65536 in structured families
+// ---------------------------------------------------------------------------------------------
+
+/// bit sizes >= 16 at both ends of every byte width 2..8 (enough distinct primes = 1 mod 2N for long chains)
+const W13: [usize; 13] = [16, 17, 24, 25, 32, 33, 40, 41, 48, 49, 56, 57, 60];
+
+/// prime bit sizes of a chain of `len` primes. Pattern 0/1 walk WIDTH_BITS (byte widths 1..8) with step 1/2, pattern 2
+/// walks W13: in each pattern the byte widths of positions j, j+8 (pattern 0, 2), j+16 (pattern 1, 2) differ, so a
+/// width table that wraps or is cut at 8 or 16 entries changes the byte count
+fn many_bits(len: usize, pattern: usize) -> Vec<usize> {
+    (0..len)
+        .map(|j| match pattern {
+            0 => WIDTH_BITS[j % 15],
+            1 => WIDTH_BITS[(2 * j) % 15],
+            _ => W13[j % 13],
+        })
+        .collect()
+}
+
+fn big_spec(scheme: Scheme, n: usize, bits: &[usize], idx: usize) -> ParamSpec {
+    let q = he::chain(n, bits);
+    let t = choose_t(n, bits, &q, idx);
+    ParamSpec::new(scheme, n, q, t)
+}
+
+/// scheme metadata of a crafted ciphertext, cycling with `idx` (as in `ct_variants`)
+fn set_meta(c: &mut Ciphertext, scheme: Scheme, t: u64, idx: usize) -> String {
+    match scheme {
+        Scheme::CKKS => {
+            c.set_scale(SCALES[idx % SCALES.len()]);
+            format!(" scale={:e}", c.scale())
+        }
+        Scheme::BGV => {
+            let cf = [1u64, 2 % t.max(2), t.saturating_sub(1).max(1)][idx % 3].max(1);
+            c.set_correction_factor(cf);
+            format!(" cf={cf}")
+        }
+        Scheme::BFV => String::new(),
+    }
+}
+
+/// the ciphertexts a parameter set produces by real operations (no crafted ones)
+fn real_variants(kit: &Kit, seed: u64, st: &mut Stats) -> Vec<(String, String, Ciphertext)> {
+    ct_variants(kit, false, seed, st).into_iter().filter(|x| !x.0.starts_with("crafted")).collect()
+}
+
+/// streams of at most `chunk` items (bounds the memory of one stream; objects stay back to back inside a chunk)
+fn stream_chunks<T: Obj>(sec: &str, items: &[Item<T>], ctxs: &[(&'static str, Arc<T::Cx>)], chunk: usize, st: &mut Stats) -> R<()> {
+    for part in items.chunks(chunk.max(1)) {
+        stream_check(sec, part, ctxs, st)?;
+    }
+    Ok(())
+}
+
+/// Cipher1d / Cipher2d / Cipher3d holding one crafted ciphertext per data level (sizes and representations cycling),
+/// the seeded encryptions of zero of every level, and a mix; compact and selected-terms formats
+fn kind_levelbox(sec: &str, kit: &Kit, ctxs: &Ctxs, seed: u64, st: &mut Stats) -> R<()> {
+    let a = &ctxs[0].1;
+    let n = kit.spec.n;
+    let natural = kit.spec.scheme != Scheme::BFV;
+    let mut per_level: Vec<Ciphertext> = vec![];
+    let mut seeded: Vec<Ciphertext> = vec![];
+    for (i, (lname, id)) in level_ids(a).into_iter().enumerate() {
+        if lname == "key" {
+            continue;
+        }
+        let size = [2usize, 3, 4, 16][i % 4];
+        let mut c = crafted_ct(a, &id, size, natural ^ (i % 3 == 2), seed, 700 + i as u64);
+        set_meta(&mut c, kit.spec.scheme, kit.spec.t, i);
+        if c.is_valid_for(a) {
+            per_level.push(c);
+        } else {
+            st.skipped.insert("crafted: not valid for the context".into());
+        }
+        match guard(|| kit.enc.encrypt_zero_symmetric_new_at(&id)) {
+            Ok(z) if z.contains_seed() => seeded.push(z),
+            Ok(_) => {}
+            Err(p) => {
+                st.skipped.insert(format!("zero-sym: refused ({})", panic_class(&p)));
+            }
+        }
+    }
+    if per_level.is_empty() {
+        return Ok(());
+    }
+    let rows = |v: &[Ciphertext], w: usize| -> Vec<Vec<Ciphertext>> { v.chunks(w).map(|r| r.to_vec()).collect() };
+    let boxes = |v: &[Ciphertext]| -> Cipher3d { Cipher3d::new_2ds(rows(v, 3).chunks(2).map(|b| Cipher2d::new(b.to_vec())).collect()) };
+    let nl = per_level.len();
+    let mut c1 = vec![("levels".to_string(), format!("Cipher1d[one ciphertext per level, {nl} levels]"), Cipher1d::new(per_level.clone()))];
+    let mut c2 = vec![("levels".to_string(), format!("Cipher2d[rows of 3, {nl} levels]"), Cipher2d::new(rows(&per_level, 3)))];
+    let mut c3 = vec![("levels".to_string(), format!("Cipher3d[2 x 3 blocks, {nl} levels]"), boxes(&per_level))];
+    if !seeded.is_empty() {
+        let ns = seeded.len();
+        let h1 = Cipher1d::new(seeded.clone());
+        let h2 = Cipher2d::new(rows(&seeded, 3));
+        let h3 = boxes(&seeded);
+        expand_impl_check(sec, "Cipher1d[seeded zero of every level]", &h1, a, st)?;
+        expand_impl_check(sec, "Cipher2d[seeded zero of every level]", &h2, a, st)?;
+        expand_impl_check(sec, "Cipher3d[seeded zero of every level]", &h3, a, st)?;
+        c1.push(("seeded".into(), format!("Cipher1d[seeded zero of {ns} levels]"), h1));
+        c2.push(("seeded".into(), format!("Cipher2d[seeded zero of {ns} levels, rows of 3]"), h2));
+        c3.push(("seeded".into(), format!("Cipher3d[seeded zero of {ns} levels]"), h3));
+        let mut mixed = vec![];
+        for i in 0..nl.max(ns) {
+            mixed.push(per_level[i % nl].clone());
+            mixed.push(seeded[i % ns].clone());
+        }
+        c1.push(("mixed".into(), "Cipher1d[crafted and seeded alternating over the levels]".into(), Cipher1d::new(mixed.clone())));
+        c2.push(("mixed".into(), "Cipher2d[crafted and seeded alternating, rows of 3]".into(), Cipher2d::new(rows(&mixed, 3))));
+        c3.push(("mixed".into(), "Cipher3d[crafted and seeded alternating]".into(), boxes(&mixed)));
+    } else {
+        st.skipped.insert("no seeded ciphertext available (polynomials shorter than 9 words)".into());
+    }
+    stream_check(sec, &wrap(c1.clone(), WithCtx), ctxs, st)?;
+    stream_check(sec, &wrap(c2.clone(), WithCtx), ctxs, st)?;
+    stream_check(sec, &wrap(c3.clone(), WithCtx), ctxs, st)?;
+    let all: Vec<usize> = (0..n).collect();
+    let term_sets: Vec<Vec<usize>> = vec![vec![], vec![0], vec![n - 1, 0], all.clone(), shuffled(&all)];
+    let (mut t1, mut t2, mut t3) = (vec![], vec![], vec![]);
+    for ts in &term_sets {
+        for (c, l, o) in &c1 {
+            t1.push(item(c, format!("{l} terms={ts:?}"), Terms1d { c: o.clone(), terms: ts.clone() }));
+        }
+        for (c, l, o) in &c2 {
+            t2.push(item(c, format!("{l} terms={ts:?}"), Terms2d { c: o.clone(), terms: ts.clone() }));
+        }
+        for (c, l, o) in &c3 {
+            t3.push(item(c, format!("{l} terms={ts:?}"), Terms3d { c: o.clone(), terms: ts.clone() }));
+        }
+    }
+    stream_check(sec, &t1, ctxs, st)?;
+    stream_check(sec, &t2, ctxs, st)?;
+    stream_check(sec, &t3, ctxs, st)
+}
+
+// ----- big-words ----------------------------------------------------------------------------------
+
+#[derive(Serialize, Deserialize, Clone, Debug)]
+pub struct BCase {
+    pub spec: ParamSpec,
+    pub kind: String,
+    /// sizes of the crafted ciphertexts (kind ct)
+    #[serde(default)]
+    pub sizes: Vec<usize>,
+    /// data lengths in 64-bit words of the coefficient-form plaintexts / word vectors (kind plain)
+    #[serde(default)]
+    pub lens: Vec<usize>,
+    /// kind keys: also the default Galois key set
+    #[serde(default)]
+    pub deep: bool,
+}
+
+/// data-word counts on both sides of the block sizes a bulk path could use
+const WORD_LENS: [usize; 47] = [
+    0, 1, 2, 7, 8, 9, 15, 16, 17, 31, 32, 33, 63, 64, 65, 127, 128, 129, 255, 256, 257, 511, 512, 513, 1023, 1024, 1025, 2047, 2048, 2049, 4095, 4096, 4097, 8191, 8192,
+    8193, 12287, 12289, 16383, 16384, 16385, 32767, 32768, 32769, 65535, 65536, 65537,
+];
+
+/// crafted ciphertexts of every level x size x representation in the compact, the full and the selected-terms format and
+/// as one Vec per level; the real variants; the containers over them (compact and a few term sets)
+fn big_ct(sec: &str, kit: &Kit, ctxs: &Ctxs, sizes: &[usize], seed: u64, st: &mut Stats) -> R<()> {
+    let a = &ctxs[0].1;
+    let n = kit.spec.n;
+    let mut idx = 0usize;
+    for (lname, id) in level_ids(a) {
+        let mut vars: Vec<(String, String, Ciphertext)> = vec![];
+        for &size in sizes {
+            for ntt in [false, true] {
+                let mut c = crafted_ct(a, &id, size, ntt, seed, 3000 + idx as u64);
+                let meta = set_meta(&mut c, kit.spec.scheme, kit.spec.t, idx);
+                idx += 1;
+                let class = if lname == "key" { "crafted-keylevel" } else { "crafted" };
+                if lname != "key" && !c.is_valid_for(a) {
+                    st.skipped.insert("crafted: not valid for the context".into());
+                    continue;
+                }
+                let words = c.data().len();
+                vars.push((class.to_string(), format!("crafted level={lname} size={size} ntt={ntt} ({words} data words){meta}"), c));
+            }
+        }
+        stream_check(sec, &wrap(vars.clone(), WithCtx), ctxs, st)?;
+        stream_check(sec, &wrap(vars.clone(), Full), ctxs, st)?;
+        // selected-terms format of every one of them (three term lists; the complete families are section big-terms)
+        let tsets: Vec<(&str, Vec<usize>)> = vec![("terms N-1,0", vec![n - 1, 0]), ("first N/2 terms", (0..n / 2).collect()), ("all terms", (0..n).collect())];
+        let mut titems: Vec<Item<Terms>> = vec![];
+        for (class, label, c) in &vars {
+            let tr = Arc::new(terms_ref_with(c, a, n > 16));
+            let ca = Arc::new(c.clone());
+            for (tl, ts) in &tsets {
+                titems.push(item(class, format!("{label}, {tl}"), Terms { ct: ca.clone(), terms: ts.clone(), tr: tr.clone() }));
+            }
+        }
+        stream_check(sec, &titems, ctxs, st)?;
+        drop(titems);
+        let all: Vec<Ciphertext> = vars.into_iter().map(|x| x.2).collect();
+        stream_check(sec, &[item("many", format!("all crafted ciphertexts of level {lname} in one Vec"), WithCtx(all))], ctxs, st)?;
+    }
+    // real variants (fresh, seeded and unseeded symmetric, zero at every level, evaluated)
+    let reals = real_variants(kit, seed, st);
+    for (_, label, c) in &reals {
+        expand_impl_check(sec, label, c, a, st)?;
+    }
+    let reals: Vec<(String, String, Ciphertext)> = reals.into_iter().map(|(c, l, o)| (c, format!("{l} ({} data words)", o.data().len()), o)).collect();
+    stream_check(sec, &wrap(reals.clone(), WithCtx), ctxs, st)?;
+    stream_check(sec, &wrap(reals.clone(), Full), ctxs, st)?;
+    if reals.is_empty() {
+        return Ok(());
+    }
+    // containers over the real variants
+    let r: Vec<Ciphertext> = reals.iter().map(|x| x.2.clone()).collect();
+    let g = |i: usize| r[i % r.len()].clone();
+    let seeded: Vec<Ciphertext> = r.iter().filter(|c| c.contains_seed()).cloned().collect();
+    let mut c1 = vec![("mixed".to_string(), format!("Cipher1d[all {} real variants]", r.len()), Cipher1d::new(r.clone()))];
+    if !seeded.is_empty() {
+        let h = Cipher1d::new(seeded.clone());
+        expand_impl_check(sec, "Cipher1d[all seeded variants]", &h, a, st)?;
+        c1.push(("seeded".into(), format!("Cipher1d[{} seeded variants]", seeded.len()), h));
+    }
+    let c2 = vec![("ragged".to_string(), "Cipher2d[[],[r0],[r1,r2],[r3,r4,r5]]".to_string(), Cipher2d::new(vec![vec![], vec![g(0)], vec![g(1), g(2)], vec![g(3), g(4), g(5)]]))];
+    let c3 = vec![(
+        "ragged".to_string(),
+        "Cipher3d[[[r0],[r1,r2]],[],[[r3],[],[r4,r5]]]".to_string(),
+        Cipher3d::new_2ds(vec![Cipher2d::new(vec![vec![g(0)], vec![g(1), g(2)]]), Cipher2d::new(vec![]), Cipher2d::new(vec![vec![g(3)], vec![], vec![g(4), g(5)]])]),
+    )];
+    stream_check(sec, &wrap(c1.clone(), WithCtx), ctxs, st)?;
+    stream_check(sec, &wrap(c2.clone(), WithCtx), ctxs, st)?;
+    stream_check(sec, &wrap(c3.clone(), WithCtx), ctxs, st)?;
+    let sets: Vec<(String, Vec<usize>)> = vec![
+        ("no terms".into(), vec![]),
+        ("term 0".into(), vec![0]),
+        ("terms N-1,0".into(), vec![n - 1, 0]),
+        ("first N/2 terms".into(), (0..n / 2).collect()),
+        ("every 3rd term".into(), (0..n).step_by(3).collect()),
+        ("all terms".into(), (0..n).collect()),
+    ];
+    let (mut t1, mut t2, mut t3) = (vec![], vec![], vec![]);
+    for (tl, ts) in &sets {
+        for (c, l, o) in &c1 {
+            t1.push(item(c, format!("{l}, {tl}"), Terms1d { c: o.clone(), terms: ts.clone() }));
+        }
+        for (c, l, o) in &c2 {
+            t2.push(item(c, format!("{l}, {tl}"), Terms2d { c: o.clone(), terms: ts.clone() }));
+        }
+        for (c, l, o) in &c3 {
+            t3.push(item(c, format!("{l}, {tl}"), Terms3d { c: o.clone(), terms: ts.clone() }));
+        }
+    }
+    stream_check(sec, &t1, ctxs, st)?;
+    stream_check(sec, &t2, ctxs, st)?;
+    stream_check(sec, &t3, ctxs, st)
+}
+
+/// 64-bit words of full range (word vectors have no modulus)
+fn word_vec(len: usize, seed: u64, tag: u64) -> Vec<u64> {
+    (0..len)
+        .map(|i| match i % 5 {
+            0 => u64::MAX,
+            1 => 0,
+            2 => 1u64 << 63,
+            _ => crate::refmodel::ser::sm64(seed ^ crate::refmodel::ser::sm64(tag ^ i as u64)),
+        })
+        .collect()
+}
+
+/// plaintexts with exactly `len` data words for every len of the case (context-free writers), NTT-form plaintexts and the
+/// secret key (k*N words), the plaintext containers over them, PolynomialSerializer, word vectors of the same lengths
+fn big_plain(sec: &str, kit: &Kit, ctxs: &Ctxs, lens: &[usize], seed: u64, st: &mut Stats) -> R<()> {
+    let a = &ctxs[0].1;
+    let n = kit.spec.n;
+    let t = if kit.spec.scheme == Scheme::CKKS { 1u64 << 40 } else { kit.spec.t };
+    let mut pts: Vec<(String, String, Plaintext)> = vec![];
+    for (i, &len) in lens.iter().enumerate() {
+        pts.push(("coeff-words".into(), format!("coefficient form, {len} data words"), coeff_plain(t, len, seed, 2000 + i as u64)));
+    }
+    for (i, (lname, id)) in level_ids(a).into_iter().enumerate() {
+        let scale = if kit.spec.scheme == Scheme::CKKS { SCALES[i % SCALES.len()] } else { 1.0 };
+        let p = crafted_ntt_plain(a, &id, scale, seed, 2100 + i as u64);
+        pts.push(("ntt-words".into(), format!("NTT form level={lname} ({} data words)", p.data().len()), p));
+    }
+    stream_check(sec, &wrap(pts.clone(), NoCtx), ctxs, st)?;
+    let sks = vec![item("keygen", format!("secret key ({} data words)", kit.sk.as_plaintext().data().len()), NoCtx(kit.sk.clone())), item("empty", "SecretKey::default()", NoCtx(SecretKey::default()))];
+    stream_check(sec, &sks, ctxs, st)?;
+    // containers: all of them in one row; ragged 2-d / 3-d over the same pool
+    let pool: Vec<Plaintext> = pts.iter().map(|x| x.2.clone()).collect();
+    let g = |i: usize| pool[i % pool.len()].clone();
+    let m = pool.len();
+    stream_check(sec, &[item("many", format!("Plain1d[all {m} plaintexts]"), NoCtx(Plain1d::new(pool.clone())))], ctxs, st)?;
+    stream_check(
+        sec,
+        &[item("ragged", format!("Plain2d[[],[last],[all {m}],[first]]"), NoCtx(Plain2d::new(vec![vec![], vec![g(m - 1)], pool.clone(), vec![g(0)]])))],
+        ctxs,
+        st,
+    )?;
+    stream_check(
+        sec,
+        &[item(
+            "ragged",
+            format!("Plain3d[[[all {m}]],[],[[p1],[],[last,first]]]"),
+            NoCtx(Plain3d::new_2ds(vec![Plain2d::new(vec![pool.clone()]), Plain2d::new(vec![]), Plain2d::new(vec![vec![g(1)], vec![], vec![g(m - 1), g(0)]])])),
+        )],
+        ctxs,
+        st,
+    )?;
+    // PolynomialSerializer
+    let mut polys: Vec<Item<PolyItem>> = vec![];
+    for (i, (l, id)) in level_ids(a).into_iter().enumerate() {
+        let c = crafted_ct(a, &id, 2, i % 2 == 1, seed, 2200 + i as u64);
+        for p in 0..2 {
+            polys.push(item("rns", format!("polynomial {p} of a crafted ciphertext at level {l} ({} words)", c.poly(p).len()), PolyItem { data: c.poly(p).to_vec(), id }));
+        }
+    }
+    if kit.spec.scheme != Scheme::CKKS {
+        for (i, &len) in lens.iter().filter(|&&l| l <= n).enumerate() {
+            let p = coeff_plain(kit.spec.t, len, seed, 2300 + i as u64);
+            polys.push(item("plain", format!("coefficient-form plaintext with {len} coefficients (t={})", kit.spec.t), PolyItem { data: p.data().clone(), id: PARMS_ID_ZERO }));
+        }
+    }
+    stream_check(sec, &polys, ctxs, st)?;
+    // word / byte vectors
+    let vs: Vec<Item<NoCtx<Vec<u64>>>> = lens.iter().enumerate().map(|(i, &len)| item("words", format!("{len} words"), NoCtx(word_vec(len, seed, 2400 + i as u64)))).collect();
+    stream_check(sec, &vs, ctxs, st)?;
+    let bs: Vec<Item<NoCtx<Vec<u8>>>> =
+        lens.iter().enumerate().map(|(i, &len)| item("bytes", format!("{len} bytes"), NoCtx(word_vec(len, seed, 2500 + i as u64).into_iter().map(|w| (w >> 13) as u8).collect::<Vec<u8>>()))).collect();
+    stream_check(sec, &bs, ctxs, st)
+}
+
+/// Galois key sets at production degree: single elements (first / last index of the key vector), the empty set, one step;
+/// `deep`: the default set
+fn big_galois(sec: &str, kit: &Kit, ctxs: &Ctxs, deep: bool, st: &mut Stats) -> R<()> {
+    let a = &ctxs[0].1;
+    let n = kit.spec.n;
+    let mut items = vec![item("empty", "GaloisKeys::default()", WithCtx(GaloisKeys::default()))];
+    let add = |items: &mut Vec<Item<WithCtx<GaloisKeys>>>, st: &mut Stats, label: String, f: &dyn Fn() -> GaloisKeys| -> R<()> {
+        match guard(f) {
+            Ok(k) => {
+                expand_impl_check(sec, &label, &k, a, st)?;
+                let present = k.as_kswitch_keys().len();
+                let total = k.as_kswitch_keys().keys().len();
+                let class = format!("{}{}", seeded_class(&k), if present < total { "-missing-entries" } else { "" });
+                items.push(item(&class, format!("{label}: {present} of {total} entries present"), WithCtx(k)));
+            }
+            Err(p) => {
+                st.skipped.insert(format!("galois keys refused ({})", panic_class(&p)));
+            }
+        }
+        Ok(())
+    };
+    for save in [false, true] {
+        add(&mut items, st, format!("create_galois_keys_from_elts([3],{save})"), &|| kit.keygen.create_galois_keys_from_elts(&[3], save))?;
+        add(&mut items, st, format!("create_galois_keys_from_elts([2N-1],{save})"), &|| kit.keygen.create_galois_keys_from_elts(&[2 * n - 1], save))?;
+        add(&mut items, st, format!("create_galois_keys_from_elts([3,N+1,2N-1],{save})"), &|| kit.keygen.create_galois_keys_from_elts(&[3, n + 1, 2 * n - 1], save))?;
+        add(&mut items, st, format!("create_galois_keys_from_elts([],{save})"), &|| kit.keygen.create_galois_keys_from_elts(&[], save))?;
+        add(&mut items, st, format!("create_galois_keys_from_steps([1],{save})"), &|| kit.keygen.create_galois_keys_from_steps(&[1], save))?;
+        if deep {
+            add(&mut items, st, format!("create_galois_keys({save})"), &|| kit.keygen.create_galois_keys(save))?;
+        }
+    }
+    stream_chunks(sec, &items, ctxs, 4, st)
+}
+
+fn check_big(sec: &str, c: &BCase, seed: u64) -> CaseOut {
+    let tag = h64(&serde_json::to_string(c).unwrap_or_default());
+    he::env_real(seed, tag);
+    let (kit, ctxs) = match setup(sec, &c.spec) {
+        Ok(x) => x,
+        Err(o) => return o,
+    };
+    let mut st = Stats::default();
+    let r = match c.kind.as_str() {
+        "ct" => big_ct(sec, &kit, &ctxs, &c.sizes, seed, &mut st),
+        "plain" => big_plain(sec, &kit, &ctxs, &c.lens, seed, &mut st),
+        "keys" => kind_keys(sec, &kit, &ctxs, &mut st)
+            .and_then(|_| kind_relin(sec, &kit, &ctxs, &mut st))
+            .and_then(|_| kind_kswitch(sec, &kit, &ctxs, &mut st))
+            .and_then(|_| big_galois(sec, &kit, &ctxs, c.deep, &mut st)),
+        "params" => kind_params(sec, &kit, &ctxs, &mut st),
+        "use" => kind_use(sec, &kit, &ctxs, seed, tag, &mut st),
+        k => panic!("unknown kind {k}"),
+    };
+    finish_case(&format!("{}:{:?}:N{}", c.kind, c.spec.scheme, c.spec.n), st, r)
+}
+
+// ----- big-terms ----------------------------------------------------------------------------------
+
+#[derive(Serialize, Deserialize, Clone, Debug)]
+pub struct TBCase {
+    pub spec: ParamSpec,
+    /// which ciphertext: natural2 | other3 | sym | fresh | keylevel
+    pub variant: String,
+    /// single | prefix | suffix | comb | comb-last | prefix-desc | comb-shuffled
+    pub family: String,
+    /// members with index = part (mod parts) are checked by this case
+    #[serde(default)]
+    pub part: usize,
+    #[serde(default)]
+    pub parts: usize,
+}
+
+const TERM_FAMILIES: [&str; 7] = ["single", "prefix", "suffix", "comb", "comb-last", "prefix-desc", "comb-shuffled"];
+const TERM_VARIANTS: [&str; 5] = ["natural2", "other3", "sym", "fresh", "keylevel"];
+
+/// structured families of term lists over 0..n (O(n) members each) that replace the 2^n subsets at large n
+fn term_family(name: &str, n: usize) -> Vec<Vec<usize>> {
+    match name {
+        // every single term
+        "single" => (0..n).map(|t| vec![t]).collect(),
+        // every prefix 0..m, m = 0..n (the empty list and the full list included)
+        "prefix" => (0..=n).map(|m| (0..m).collect()).collect(),
+        // every proper suffix m..n
+        "suffix" => (1..n).map(|m| (m..n).collect()).collect(),
+        // every comb {0, s, 2s, ..}, s = 2..n
+        "comb" => (2..=n).map(|s| (0..n).step_by(s).collect()).collect(),
+        // every comb {s-1, 2s-1, ..}: the last term of every block of s
+        "comb-last" => (2..=n).map(|s| (s - 1..n).step_by(s).collect()).collect(),
+        // every prefix in descending order
+        "prefix-desc" => (2..=n).map(|m| (0..m).rev().collect()).collect(),
+        // every comb with at least 3 teeth in a fixed non-monotone order
+        "comb-shuffled" => (2..=n / 2).map(|s| shuffled(&(0..n).step_by(s).collect::<Vec<_>>())).filter(|v| v.len() > 2).collect(),
+        f => panic!("unknown family {f}"),
+    }
+}
+
+fn check_big_terms(c: &TBCase, seed: u64) -> CaseOut {
+    let tag = h64(&serde_json::to_string(c).unwrap_or_default());
+    he::env_real(seed, tag);
+    let sec = "big-terms";
+    let (kit, ctxs) = match setup(sec, &c.spec) {
+        Ok(x) => x,
+        Err(o) => return o,
+    };
+    let a = &ctxs[0].1;
+    let n = c.spec.n;
+    let scheme = c.spec.scheme;
+    let natural = scheme != Scheme::BFV;
+    let mut st = Stats::default();
+    let levels = level_ids(a);
+    let first = *a.first_parms_id();
+    let last = *a.last_parms_id();
+    let plain = sample_plain(&kit, seed);
+    let made: Result<(String, String, Ciphertext), String> = match c.variant.as_str() {
+        "natural2" => {
+            let mut ct = crafted_ct(a, &first, 2, natural, seed, 4000);
+            let meta = set_meta(&mut ct, scheme, kit.spec.t, 1);
+            Ok(("crafted".into(), format!("crafted first level size=2 ntt={natural}{meta}"), ct))
+        }
+        "other3" => {
+            let mut ct = crafted_ct(a, &last, 3, !natural, seed, 4001);
+            let meta = set_meta(&mut ct, scheme, kit.spec.t, 2);
+            Ok(("crafted".into(), format!("crafted last level size=3 ntt={}{meta}", !natural), ct))
+        }
+        "keylevel" => {
+            let id = levels[0].1;
+            Ok(("crafted-keylevel".into(), format!("crafted level={} size=2 ntt={natural}", levels[0].0), crafted_ct(a, &id, 2, natural, seed, 4002)))
+        }
+        "sym" => guard(|| kit.enc.encrypt_symmetric_new(&plain)).map(|ct| (format!("sym-{}", seeded_tag(&ct)), "encrypt_symmetric_new".to_string(), ct)),
+        "fresh" => guard(|| kit.enc.encrypt_new(&plain)).map(|ct| ("fresh-pk-expanded".to_string(), "encrypt_new".to_string(), ct)),
+        v => panic!("unknown variant {v}"),
+    };
+    let (class, label, ct) = match made {
+        Ok(x) => x,
+        Err(p) => return CaseOut::skip(&format!("encryption refused: {}", panic_class(&p))),
+    };
+    if class == "crafted" && !ct.is_valid_for(a) {
+        return CaseOut::skip("crafted ciphertext not valid for the context");
+    }
+    let parts = c.parts.max(1);
+    let lists: Vec<Vec<usize>> = term_family(&c.family, n).into_iter().enumerate().filter(|(i, _)| i % parts == c.part).map(|x| x.1).collect();
+    let tr = Arc::new(terms_ref(&ct, a));
+    let ct = Arc::new(ct);
+    let fam = &c.family;
+    let r = (|| -> R<()> {
+        let items: Vec<Item<Terms>> = lists.into_iter().map(|ts| item(&class, format!("{label}, family {fam}, {} terms", ts.len()), Terms { ct: ct.clone(), terms: ts, tr: tr.clone() })).collect();
+        // several objects per stream; the chunk bounds the stream to a few MB at N = 8192
+        stream_chunks(sec, &items, &ctxs, if n >= 1024 { 64 } else { 512 }, &mut st)
+    })();
+    finish_case(&format!("terms:{:?}:{}:{}", scheme, c.variant, c.family), st, r)
+}
+
+// ----- big-shapes ---------------------------------------------------------------------------------
+
+#[derive(Serialize, Deserialize, Clone, Debug)]
+pub struct SHCase {
+    pub spec: ParamSpec,
+    /// c1 | c2 | c3 | p1 | p2 | p3 | vec
+    pub kind: String,
+    /// every box dimension / row count / stair height runs over 0..=max
+    pub max: usize,
+    /// additional long lengths (one dimension long, the others 0..2)
+    #[serde(default)]
+    pub long: Vec<usize>,
+    /// 2-d / 3-d kinds: the shapes with index = part (mod parts) are checked by this case
+    #[serde(default)]
+    pub part: usize,
+    #[serde(default)]
+    pub parts: usize,
+}
+
+/// shapes of a 2-d container as row lengths
+fn shapes2(max: usize, long: &[usize]) -> Vec<(String, Vec<usize>)> {
+    let mut v: Vec<(String, Vec<usize>)> = vec![];
+    for r in 0..=max {
+        for c in 0..=max {
+            v.push(("box".into(), vec![c; r]));
+        }
+    }
+    for r in 2..=max {
+        v.push(("stairs".into(), (0..r).collect()));
+        v.push(("stairs-down".into(), (0..r).rev().collect()));
+        v.push(("alternating".into(), (0..r).map(|i| if i % 2 == 0 { 0 } else { r }).collect()));
+        v.push(("irregular".into(), (0..r).map(|i| (i * 7 + r) % 5).collect()));
+    }
+    for &l in long {
+        v.push(("long".into(), vec![1; l]));
+        v.push(("long".into(), vec![0; l]));
+        v.push(("long".into(), vec![l]));
+        v.push(("long".into(), vec![l, 0, 2]));
+    }
+    v
+}
+
+/// shapes of a 3-d container as row lengths of every matrix
+fn shapes3(max: usize, long: &[usize]) -> Vec<(String, Vec<Vec<usize>>)> {
+    let mut v: Vec<(String, Vec<Vec<usize>>)> = vec![];
+    let m3 = max.min(6);
+    for a in 0..=m3 {
+        for b in 0..=m3 {
+            for c in 0..=m3 {
+                v.push(("box".into(), vec![vec![c; b]; a]));
+            }
+        }
+    }
+    // one dimension 0..=max, the other two small
+    for l in 0..=max {
+        for (x, y) in [(1usize, 1usize), (2, 3), (3, 2), (0, 2), (2, 0)] {
+            v.push(("slab".into(), vec![vec![y; x]; l]));
+            v.push(("slab".into(), vec![vec![y; l]; x]));
+            v.push(("slab".into(), vec![vec![l; y]; x]));
+        }
+    }
+    for r in 2..=max.min(10) {
+        v.push(("stairs".into(), (0..r).map(|i| (0..i).map(|j| i + j).collect()).collect()));
+        v.push(("irregular".into(), (0..r).map(|i| (0..(i * 3 + r) % 4).map(|j| (i + 2 * j + r) % 3).collect()).collect()));
+    }
+    for &l in long {
+        v.push(("long".into(), vec![vec![1]; l]));
+        v.push(("long".into(), vec![vec![]; l]));
+        v.push(("long".into(), vec![vec![1; l]]));
+        v.push(("long".into(), vec![vec![0; l], vec![2]]));
+        v.push(("long".into(), vec![vec![l], vec![], vec![1, 2]]));
+    }
+    v
+}
+
+fn check_big_shapes(c: &SHCase, seed: u64) -> CaseOut {
+    let tag = h64(&serde_json::to_string(c).unwrap_or_default());
+    he::env_real(seed, tag);
+    let sec = "big-shapes";
+    let (kit, ctxs) = match setup(sec, &c.spec) {
+        Ok(x) => x,
+        Err(o) => return o,
+    };
+    let a = &ctxs[0].1;
+    let n = c.spec.n;
+    let mut st = Stats::default();
+    // pool of 7 heterogeneous ciphertexts (7 is coprime to every box dimension but 7 and 14): levels, sizes,
+    // representations differ, seeded ones in between
+    let vars = ct_variants(&kit, false, seed, &mut st);
+    let seeded: Vec<Ciphertext> = vars.iter().filter(|x| x.2.contains_seed()).map(|x| x.2.clone()).collect();
+    let mut ex: Vec<Ciphertext> = vars.iter().filter(|x| x.0.starts_with("fresh") || x.0.starts_with("evaluated")).map(|x| x.2.clone()).collect();
+    ex.extend(vars.iter().filter(|x| x.0 == "crafted" && x.2.size() == 3).map(|x| x.2.clone()).rev().take(2));
+    ex.extend(vars.iter().filter(|x| x.0 == "crafted" && x.2.size() == 16).map(|x| x.2.clone()).take(1));
+    ex.extend(vars.iter().filter(|x| x.0 == "crafted" && x.2.size() == 2).map(|x| x.2.clone()).take(2));
+    if ex.is_empty() {
+        return CaseOut::skip("no ciphertext available");
+    }
+    let mut pool: Vec<Ciphertext> = vec![];
+    for i in 0..7 {
+        if i % 3 == 1 && !seeded.is_empty() {
+            pool.push(seeded[(i / 3) % seeded.len()].clone());
+        } else {
+            pool.push(ex[i % ex.len()].clone());
+        }
+    }
+    if seeded.is_empty() {
+        st.skipped.insert("no seeded ciphertext available".into());
+    }
+    let pts: Vec<Plaintext> = pt_variants(&kit, seed, &mut st).into_iter().map(|x| x.2).collect();
+    // selected-terms format: terms N-1,0 for every shape; no terms / all terms for the shapes of at most 16 elements
+    let term_sets: Vec<(Vec<usize>, usize)> = vec![(vec![n - 1, 0], usize::MAX), (vec![], 16), ((0..n).collect(), 16)];
+    let parts = c.parts.max(1);
+    let part = c.part;
+    let mine = move |i: usize| i % parts == part;
+    let r = (|| -> R<()> {
+        let mut ctr = 0usize;
+        let mut nextc = |k: usize| -> Vec<Ciphertext> {
+            let v = (0..k).map(|i| pool[(ctr + i) % pool.len()].clone()).collect();
+            ctr += k + 1;
+            v
+        };
+        let mut pctr = 0usize;
+        let mut nextp = |k: usize| -> Vec<Plaintext> {
+            let v = (0..k).map(|i| pts[(pctr + i) % pts.len()].clone()).collect();
+            pctr += k + 1;
+            v
+        };
+        let lens: Vec<usize> = (0..=c.max).chain(c.long.iter().copied()).collect();
+        match c.kind.as_str() {
+            "c1" => {
+                let cs: Vec<(String, String, Cipher1d)> = lens.iter().map(|&l| ("length".to_string(), format!("Cipher1d of {l} ciphertexts"), Cipher1d::new(nextc(l)))).collect();
+                stream_check(sec, &wrap(cs.clone(), WithCtx), &ctxs, &mut st)?;
+                let mut ts = vec![];
+                for (t, cap) in &term_sets {
+                    for (cl, l, o) in cs.iter().filter(|x| x.2.data.len() <= (*cap).min(2 * c.max + 2).max(c.max)) {
+                        ts.push(item(cl, format!("{l}, {} terms", t.len()), Terms1d { c: o.clone(), terms: t.clone() }));
+                    }
+                }
+                stream_check(sec, &ts, &ctxs, &mut st)?;
+                if !seeded.is_empty() {
+                    for l in 1..=c.max {
+                        let h = Cipher1d::new((0..l).map(|i| seeded[i % seeded.len()].clone()).collect());
+                        expand_impl_check(sec, &format!("Cipher1d of {l} seeded ciphertexts"), &h, a, &mut st)?;
+                    }
+                }
+                Ok(())
+            }
+            "c2" => {
+                let cs: Vec<(String, String, Cipher2d)> = shapes2(c.max, &c.long)
+                    .into_iter()
+                    .enumerate()
+                    .filter(|(i, _)| mine(*i))
+                    .map(|(_, (cl, rows))| (cl, format!("Cipher2d with row lengths {}", show_rows(&rows)), Cipher2d::new(rows.iter().map(|&k| nextc(k)).collect())))
+                    .collect();
+                stream_chunks(sec, &wrap(cs.clone(), WithCtx), &ctxs, 64, &mut st)?;
+                let mut ts = vec![];
+                for (t, cap) in &term_sets {
+                    for (cl, l, o) in cs.iter().filter(|x| x.0 != "long" && x.2.data.iter().map(|r| r.data.len()).sum::<usize>() <= *cap) {
+                        ts.push(item(cl, format!("{l}, {} terms", t.len()), Terms2d { c: o.clone(), terms: t.clone() }));
+                    }
+                }
+                stream_chunks(sec, &ts, &ctxs, 64, &mut st)
+            }
+            "c3" => {
+                let cs: Vec<(String, String, Cipher3d)> = shapes3(c.max, &c.long)
+                    .into_iter()
+                    .enumerate()
+                    .filter(|(i, _)| mine(*i))
+                    .map(|(_, (cl, mats))| {
+                        let label = format!("Cipher3d with row lengths [{}]", mats.iter().map(|m| show_rows(m)).collect::<Vec<_>>().join(","));
+                        (cl, label, Cipher3d::new_2ds(mats.iter().map(|rows| Cipher2d::new(rows.iter().map(|&k| nextc(k)).collect())).collect()))
+                    })
+                    .collect();
+                stream_chunks(sec, &wrap(cs.clone(), WithCtx), &ctxs, 64, &mut st)?;
+                let mut ts = vec![];
+                for (t, cap) in &term_sets {
+                    for (cl, l, o) in cs.iter().filter(|x| x.0 != "long" && x.2.data.iter().flat_map(|m| m.data.iter()).map(|r| r.data.len()).sum::<usize>() <= *cap) {
+                        ts.push(item(cl, format!("{l}, {} terms", t.len()), Terms3d { c: o.clone(), terms: t.clone() }));
+                    }
+                }
+                stream_chunks(sec, &ts, &ctxs, 64, &mut st)
+            }
+            "p1" => {
+                let ps: Vec<Item<NoCtx<Plain1d>>> = lens.iter().map(|&l| item("length", format!("Plain1d of {l} plaintexts"), NoCtx(Plain1d::new(nextp(l))))).collect();
+                stream_check(sec, &ps, &ctxs, &mut st)
+            }
+            "p2" => {
+                let ps: Vec<Item<NoCtx<Plain2d>>> = shapes2(c.max, &c.long)
+                    .into_iter()
+                    .enumerate()
+                    .filter(|(i, _)| mine(*i))
+                    .map(|(_, (cl, rows))| item(&cl, format!("Plain2d with row lengths {}", show_rows(&rows)), NoCtx(Plain2d::new(rows.iter().map(|&k| nextp(k)).collect()))))
+                    .collect();
+                stream_chunks(sec, &ps, &ctxs, 64, &mut st)
+            }
+            "p3" => {
+                let ps: Vec<Item<NoCtx<Plain3d>>> = shapes3(c.max, &c.long)
+                    .into_iter()
+                    .enumerate()
+                    .filter(|(i, _)| mine(*i))
+                    .map(|(_, (cl, mats))| {
+                        let label = format!("Plain3d with row lengths [{}]", mats.iter().map(|m| show_rows(m)).collect::<Vec<_>>().join(","));
+                        item(&cl, label, NoCtx(Plain3d::new_2ds(mats.iter().map(|rows| Plain2d::new(rows.iter().map(|&k| nextp(k)).collect())).collect())))
+                    })
+                    .collect();
+                stream_chunks(sec, &ps, &ctxs, 64, &mut st)
+            }
+            "vec" => {
+                let vs: Vec<Item<WithCtx<Vec<Ciphertext>>>> = lens.iter().map(|&l| item("length", format!("Vec of {l} ciphertexts"), WithCtx(nextc(l)))).collect();
+                stream_check(sec, &vs, &ctxs, &mut st)?;
+                // public keys, seeded and expanded alternating
+                let mut pks: Vec<PublicKey> = vec![];
+                for save in [false, true, true, false, true] {
+                    match guard(|| kit.keygen.create_public_key(save)) {
+                        Ok(pk) => pks.push(pk),
+                        Err(p) => {
+                            st.skipped.insert(format!("public key creation refused ({})", panic_class(&p)));
+                        }
+                    }
+                }
+                if !pks.is_empty() {
+                    let vs: Vec<Item<WithCtx<Vec<PublicKey>>>> =
+                        lens.iter().map(|&l| item("length", format!("Vec of {l} public keys"), WithCtx((0..l).map(|i| pks[(i + l) % pks.len()].clone()).collect::<Vec<_>>()))).collect();
+                    stream_check(sec, &vs, &ctxs, &mut st)?;
+                }
+                let ws: Vec<Item<NoCtx<Vec<Modulus>>>> = lens
+                    .iter()
+                    .map(|&l| item("length", format!("Vec of {l} moduli"), NoCtx((0..l).map(|i| Modulus::new(c.spec.q[i % c.spec.q.len()] - 2 * (i / c.spec.q.len()) as u64)).collect::<Vec<_>>())))
+                    .collect();
+                stream_check(sec, &ws, &ctxs, &mut st)
+            }
+            k => panic!("unknown kind {k}"),
+        }
+    })();
+    finish_case(&format!("shapes:{}:{:?}", c.kind, c.spec.scheme), st, r)
+}
+
+/// row lengths, long runs abbreviated ("1 x4097")
+fn show_rows(rows: &[usize]) -> String {
+    if rows.len() > 24 && rows.iter().all(|&x| x == rows[0]) {
+        return format!("[{} x{}]", rows[0], rows.len());
+    }
+    format!("{rows:?}")
+}
+
+/// Order of a section's cases: the 24 cheapest first (the engine executes the first 24 cases twice, sequentially, as its
+/// determinism self-test), then the others from the most expensive down (a long case must not be the last one started).
+fn order_cases<C>(mut cases: Vec<C>, cost: impl Fn(&C) -> u64) -> Vec<C> {
+    cases.sort_by_key(|c| cost(c));
+    let tail = cases.split_off(cases.len().min(24));
+    cases.extend(tail.into_iter().rev());
+    cases
+}
+
+/// cases of the production-size sections
+fn big_sections(cfg: &RunCfg) -> Vec<Box<dyn AnySection>> {
+    let seed = cfg.seed;
+    let deep = cfg.thorough();
+    let mut v: Vec<Box<dyn AnySection>> = vec![];
+
+    // ---- big-primes: 1..19 (thorough: ..24, 31..33, 63, 64) primes in the chain at N = 4 / 8, every object kind
+    let mut pcases: Vec<Case> = vec![];
+    let mut plens: Vec<usize> = (1..=19).collect();
+    if deep {
+        plens.extend([20, 21, 22, 23, 24, 31, 32, 33, 63, 64]);
+    } else {
+        plens.extend([33, 64]);
+    }
+    let mut kinds: Vec<&str> = KINDS.to_vec();
+    kinds.push("levelbox");
+    let mut nspecs = 0usize;
+    let mut seen: BTreeSet<String> = BTreeSet::new();
+    for &len in &plens {
+        let mut combos: Vec<(usize, usize)> = vec![]; // (N, pattern)
+        if len <= 19 {
+            combos.push((4, 0));
+            // (N = 8 with 1..7 primes is in the quick tier of section `objects`)
+            if deep || len >= 8 {
+                combos.push((8, 1));
+            }
+            if deep {
+                combos.extend([(4, 1), (8, 0), (4, 2), (8, 2)]);
+            }
+        } else {
+            combos.push((4, 2));
+            if deep {
+                combos.push((8, 2));
+            }
+        }
+        for (ci, (n, pat)) in combos.into_iter().enumerate() {
+            let bits = many_bits(len, pat);
+            for (si, scheme) in Scheme::all().into_iter().enumerate() {
+                // long chains: one scheme per chain in the quick tier
+                if !deep && len > 19 && si != len % 3 {
+                    continue;
+                }
+                let mut s = big_spec(scheme, n, &bits, len + ci + si);
+                // (the patterns coincide on the shortest chains)
+                if !seen.insert(serde_json::to_string(&s).unwrap_or_default()) {
+                    continue;
+                }
+                nspecs += 1;
+                for k in &kinds {
+                    pcases.push(Case { spec: s.clone(), kind: k.to_string(), deep: false });
+                }
+                // the special prime used for encryption: the first data level has ALL primes
+                if [9usize, 17].contains(&len) && (deep || ci == 0) {
+                    s.special_enc = true;
+                    nspecs += 1;
+                    for k in &kinds {
+                        pcases.push(Case { spec: s.clone(), kind: k.to_string(), deep: false });
+                    }
+                }
+            }
+        }
+    }
+    v.push(
+        E1::new(
+            "big-primes",
+            &format!(
+                "{nspecs} parameter sets: chains of L primes for every L in {} (byte widths 1..8 cycling so that positions j, j+8, j+16 differ) x N in {{4,8}} (quick: N = 8 from 8 primes on) x BFV/BGV/CKKS x {} object kinds (the 10 of `objects` + levelbox = Cipher1d/2d/3d over all levels): keys carry L primes, ciphertexts / plaintexts / polynomials every level 1..L; sizes {{2,3,4,16}}; both representations; seeded and expanded; announced = returned = written = consumed, restored == original",
+                if deep { "1..24, 31..33, 63, 64" } else { "1..19, 33, 64" },
+                kinds.len()
+            ),
+            order_cases(pcases, |c| (c.spec.q.len() * c.spec.q.len() * c.spec.n) as u64).into_iter(),
+            move |c: &Case| check_objects_in("big-primes", c, seed),
+        )
+        .deadline(std::time::Duration::from_secs(120))
+        .batch(4),
+    );
+
+    // ---- big-words: total data words on both sides of 1024 / 4096 / 8192 / 65536
+    // (N, chain bits, sizes): every level of the chain x every size x both representations
+    let all_sizes: Vec<usize> = (2..=16).collect();
+    let mut grid: Vec<(usize, Vec<usize>, Vec<usize>)> = vec![
+        (2, many_bits(19, 2), all_sizes.clone()),
+        (4, many_bits(19, 0), all_sizes.clone()),
+        (8, many_bits(19, 1), all_sizes.clone()),
+        (16, many_bits(19, 2), all_sizes.clone()), // 4080 = 16*17*15, 4096 = 16*16*16, 4352 = 16*17*16
+        (256, vec![20, 30, 40, 50, 60], vec![2, 3, 4, 5, 8, 16]), // 1024 = 256*1*4 = 256*2*2, 4096 = 256*1*16 = 256*4*4
+        (1024, vec![30, 40, 50], vec![2, 3, 4, 5]),              // 4096 = 1024*1*4 = 1024*2*2, 5120, 6144, 8192 = 1024*2*4
+        (4096, vec![40, 41], vec![2, 3]),                        // 8192, 12288, 16384, 24576
+    ];
+    if deep {
+        grid.extend([
+            (8, many_bits(64, 2), all_sizes.clone()),   // 4104 = 8*57*9, 63 / 64 primes
+            (32, many_bits(19, 2), all_sizes.clone()),  // 4160 = 32*13*10
+            (64, many_bits(19, 2), all_sizes.clone()),  // 4032 = 64*9*7, 4160 = 64*13*5
+            (128, many_bits(19, 2), all_sizes.clone()),
+            (256, many_bits(21, 2), all_sizes.clone()), // 65280 = 256*17*15, 65536 = 256*16*16, 66560 = 256*20*13
+            (512, many_bits(9, 2), all_sizes.clone()),
+            (1024, many_bits(9, 2), all_sizes.clone()), // 64512 = 1024*7*9, 65536 = 1024*8*8, 66560 = 1024*5*13
+            (2048, vec![30, 40, 50, 60], vec![2, 3, 4, 5, 8, 11, 16]), // 65536 = 2048*2*16, 67584 = 2048*3*11
+            (4096, vec![36, 37, 50, 60], vec![2, 3, 4, 5, 6, 8, 9, 15, 16]), // 61440, 65536 = 4096*1*16 = 4096*2*8, 73728
+            (8192, vec![40, 50, 60], vec![2, 3, 4, 7, 8, 9]), // 57344, 65536 = 8192*1*8 = 8192*2*4, 73728
+            (16384, vec![50, 60], vec![2, 3, 4]),             // 65536 = 16384*1*4 = 16384*2*2
+            (32768, vec![55], vec![2, 3]),                    // 65536 = 32768*1*2
+        ]);
+    }
+    let mut bcases: Vec<BCase> = vec![];
+    let mut wsum: BTreeSet<usize> = BTreeSet::new();
+    for (gi, (n, bits, sizes)) in grid.iter().enumerate() {
+        for k in 1..=bits.len() {
+            for s in sizes {
+                wsum.insert(n * k * s);
+            }
+        }
+        for (si, scheme) in Scheme::all().into_iter().enumerate() {
+            let spec = big_spec(scheme, *n, bits, gi + si);
+            bcases.push(BCase { spec: spec.clone(), kind: "ct".into(), sizes: sizes.clone(), lens: vec![], deep });
+            if *n >= 256 || bits.len() == 64 {
+                let lens: Vec<usize> = WORD_LENS.iter().copied().filter(|&l| deep || *n == 1024 || l <= 4 * n).collect();
+                bcases.push(BCase { spec: spec.clone(), kind: "plain".into(), sizes: vec![], lens, deep });
+                bcases.push(BCase { spec: spec.clone(), kind: "keys".into(), sizes: vec![], lens: vec![], deep: deep && *n <= 4096 });
+                bcases.push(BCase { spec: spec.clone(), kind: "params".into(), sizes: vec![], lens: vec![], deep });
+                if *n <= 1024 || (deep && *n <= 4096) {
+                    bcases.push(BCase { spec: spec.clone(), kind: "use".into(), sizes: vec![], lens: vec![], deep });
+                }
+            }
+        }
+    }
+    let bcases = order_cases(bcases, |c| {
+        let (n, k) = (c.spec.n as u64, c.spec.q.len() as u64);
+        match c.kind.as_str() {
+            "params" => k,
+            "plain" => n * k + c.lens.iter().sum::<usize>() as u64 / 4,
+            "keys" => n * k * k * 4,
+            "use" => n * k * k * 8,
+            _ => n * k * k * c.sizes.iter().sum::<usize>() as u64,
+        }
+    });
+    let near = |b: usize| -> String {
+        let lo = wsum.range(..b).next_back().copied().unwrap_or(0);
+        let hi = wsum.range(b + 1..).next().copied().unwrap_or(0);
+        format!("{lo} < {}{b} < {hi}", if wsum.contains(&b) { "" } else { "(not hit) " })
+    };
+    v.push(
+        E1::new(
+            "big-words",
+            &format!(
+                "{} cases = (N, chain, scheme) x kind; N in {:?}; ct: crafted ciphertexts of EVERY level x sizes x both representations in the compact, the full and the selected-terms format (3 term lists) and as one Vec per level ({} distinct totals size*primes*N of data words, nearest totals around the block sizes: {}, {}, {}, {}), real seeded / expanded variants (full format of a seeded one: primes*N + 9 words), containers + 6 term sets; plain: coefficient-form plaintexts, word and byte vectors of exactly L words for L in 0..2, 2^k-1, 2^k, 2^k+1 (k = 3..16), 12287, 12289; NTT-form plaintexts of every level, secret key, Plain1d/2d/3d, PolynomialSerializer; keys: public / relin / key-switching / Galois keys seeded and expanded; params; use",
+                bcases.len(),
+                grid.iter().map(|g| g.0).collect::<BTreeSet<_>>(),
+                wsum.len(),
+                near(1024),
+                near(4096),
+                near(8192),
+                near(65536)
+            ),
+            bcases.into_iter(),
+            move |c: &BCase| check_big("big-words", c, seed),
+        )
+        .deadline(std::time::Duration::from_secs(300))
+        .batch(1),
+    );
+
+    // ---- big-terms: structured term families at N = 32 .. 8192
+    let mut tcases: Vec<TBCase> = vec![];
+    // (N, chain bits, families, variants, schemes)
+    let fams_all: Vec<&str> = TERM_FAMILIES.to_vec();
+    let vars_all: Vec<&str> = TERM_VARIANTS.to_vec();
+    let mut tgrid: Vec<(usize, Vec<usize>, Vec<&str>, Vec<&str>, Vec<Scheme>)> = vec![
+        (32, vec![17, 25, 33], fams_all.clone(), vars_all.clone(), Scheme::all().to_vec()),
+        (64, vec![20, 41], fams_all.clone(), vars_all.clone(), Scheme::all().to_vec()),
+        (256, vec![30, 57, 40], fams_all.clone(), vars_all.clone(), Scheme::all().to_vec()),
+        (1024, vec![36, 49], fams_all.clone(), vec!["natural2", "other3", "sym"], vec![Scheme::BFV, Scheme::CKKS]),
+    ];
+    if deep {
+        tgrid.extend([
+            (128, vec![24, 33, 48], fams_all.clone(), vars_all.clone(), Scheme::all().to_vec()),
+            (512, vec![25, 41, 56], fams_all.clone(), vars_all.clone(), Scheme::all().to_vec()),
+            (1024, vec![36, 49], fams_all.clone(), vars_all.clone(), vec![Scheme::BGV]),
+            (1024, vec![36, 49], fams_all.clone(), vec!["fresh", "keylevel"], vec![Scheme::BFV, Scheme::CKKS]),
+            (2048, vec![40, 57], fams_all.clone(), vars_all.clone(), Scheme::all().to_vec()),
+            (4096, vec![44, 60], fams_all.clone(), vec!["natural2", "other3", "sym"], Scheme::all().to_vec()),
+            (8192, vec![50, 60], vec!["single", "prefix", "suffix", "comb", "comb-last"], vec!["natural2", "other3"], vec![Scheme::BFV, Scheme::CKKS]),
+        ]);
+    }
+    let mut tn: BTreeSet<usize> = BTreeSet::new();
+    for (gi, (n, bits, fams, vars, schemes)) in tgrid.iter().enumerate() {
+        tn.insert(*n);
+        for (si, scheme) in schemes.iter().enumerate() {
+            let spec = big_spec(*scheme, *n, bits, gi + si + 1);
+            for var in vars {
+                for fam in fams {
+                    // ~ 256 members per case at large N (a member costs O(N log N) in the reference)
+                    let parts = (*n / 256).max(1);
+                    for part in 0..parts {
+                        tcases.push(TBCase { spec: spec.clone(), variant: var.to_string(), family: fam.to_string(), part, parts });
+                    }
+                }
+            }
+        }
+    }
+    let tcases = order_cases(tcases, |c| (c.spec.n * c.spec.n / c.parts.max(1)) as u64 * if c.family == "single" { 1 } else { 2 });
+    v.push(
+        E1::new(
+            "big-terms",
+            &format!(
+                "{} cases = (parameter set, ciphertext variant, family, share): N in {:?}; variants {:?} (natural / other representation, sizes 2 / 3, first / last / key level, seeded symmetric, fresh); families over the term indices 0..N-1: every single term, every prefix 0..m (m = 0..N), every suffix, every comb {{0,s,2s,..}} and {{s-1,2s-1,..}} (s = 2..N), every prefix in descending order, every comb in a shuffled order - instead of the 2^N subsets; reference: coefficient-domain selection through refmodel::ntt::fast_intt / fast_ntt with the root of the context's table",
+                tcases.len(),
+                tn,
+                TERM_VARIANTS
+            ),
+            tcases.into_iter(),
+            move |c: &TBCase| check_big_terms(c, seed),
+        )
+        .deadline(std::time::Duration::from_secs(300))
+        .batch(1),
+    );
+
+    // ---- big-shapes: container lengths 0..20, boxes, ragged shapes, long containers
+    let mut shcases: Vec<SHCase> = vec![];
+    let long: Vec<usize> = if deep { vec![31, 32, 33, 63, 64, 65, 127, 128, 129, 255, 256, 257, 511, 512, 513, 1023, 1024, 1025, 4095, 4096, 4097] } else { vec![31, 32, 33, 63, 64, 65, 127, 128, 129, 255, 256, 257, 1023, 1024, 1025] };
+    for (si, scheme) in Scheme::all().into_iter().enumerate() {
+        let spec = big_spec(scheme, 8, &[25, 30, 35], si);
+        for kind in ["c1", "c2", "c3", "p1", "p2", "p3", "vec"] {
+            let dim3 = kind.ends_with('3');
+            let dim2 = kind.ends_with('2');
+            let parts = if kind.starts_with('c') && (dim2 || dim3) { 8 } else if dim2 || dim3 { 2 } else { 1 };
+            for part in 0..parts {
+                shcases.push(SHCase {
+                    spec: spec.clone(),
+                    kind: kind.to_string(),
+                    max: if dim3 && !deep { 12 } else { 20 },
+                    long: if dim3 || dim2 { long.iter().copied().filter(|&l| deep || l <= 257).collect() } else { long.clone() },
+                    part,
+                    parts,
+                });
+            }
+        }
+    }
+    v.push(
+        E1::new(
+            "big-shapes",
+            &format!(
+                "BFV/BGV/CKKS at N = 8 (3 primes) x Cipher1d / Plain1d / Vec<Ciphertext> / Vec<PublicKey> / Vec<Modulus> of every length 0..20 and {long:?}; Cipher2d / Plain2d: every box r x c (r, c = 0..20), stairs, alternating and irregular rows, long rows / many rows; Cipher3d / Plain3d: every box up to 6^3, slabs with one dimension 0..{}, stairs, long; elements cycle through 7 heterogeneous ciphertexts (levels, sizes 2/3/16, representations, seeded and expanded); compact format; selected-terms format with terms N-1,0 for every shape (no / all terms for shapes of <= 16 elements); the containers of a case back to back in streams of 64",
+                if deep { 20 } else { 12 }
+            ),
+            order_cases(shcases, |c| match c.kind.as_str() {
+                "p1" | "vec" => 1,
+                "c1" => 2,
+                "p2" | "p3" => 3,
+                _ => 10,
+            })
+            .into_iter(),
+            move |c: &SHCase| check_big_shapes(c, seed),
+        )
+        .deadline(std::time::Duration::from_secs(300))
+        .batch(1),
+    );
+
+    // ---- big-rnsp: the Rnsp* wrappers with many primes and at production degree
+    let mut rcases: Vec<RCase> = vec![];
+    let mut rl: Vec<(usize, Vec<usize>)> = (1..=19).map(|l| (4usize, many_bits(l, 2))).collect();
+    rl.extend([8usize, 9, 10, 16, 17, 18, 19].into_iter().map(|l| (8usize, many_bits(l, 1))));
+    rl.extend([(256, vec![30, 40, 50]), (1024, vec![40, 50])]);
+    if deep {
+        rl.extend((1..=7).map(|l| (8usize, many_bits(l, 1))));
+        rl.extend((11..=15).map(|l| (8usize, many_bits(l, 1))));
+        rl.extend([(4, many_bits(33, 2)), (8, many_bits(33, 2)), (4, many_bits(64, 2)), (64, many_bits(9, 2)), (4096, vec![40, 50, 60])]);
+    }
+    for (i, (n, bits)) in rl.iter().enumerate() {
+        let q = he::chain(*n, bits);
+        for (si, scheme) in [Scheme::BFV, Scheme::BGV].into_iter().enumerate() {
+            if !deep && bits.len() < 8 && *n == 4 && (i + si) % 2 == 1 {
+                continue;
+            }
+            // (a single 8-bit prime admits no plain modulus above it)
+            let ts = if q.len() == 1 && q[0] < 300 { vec![17u64, 97] } else if (i + si) % 2 == 0 { vec![17u64, 97, 257] } else { vec![1 << 6, 257] };
+            rcases.push(RCase { scheme, n: *n, q: q.clone(), ts, big: true });
+        }
+    }
+    // number of plain moduli (components of every Rnsp object) 1..17
+    let many_ts: [u64; 17] = [17, 97, 257, 193, 113, 241, 337, 353, 401, 433, 449, 577, 593, 641, 673, 769, 929];
+    let tlens: Vec<usize> = if deep { (1..=17).collect() } else { vec![4, 8, 9, 16, 17] };
+    for (i, &m) in tlens.iter().enumerate() {
+        let q = he::chain(4, &[30, 40, 50]);
+        for (si, scheme) in [Scheme::BFV, Scheme::BGV].into_iter().enumerate() {
+            if deep || (i + si) % 2 == 0 {
+                rcases.push(RCase { scheme, n: 4, q: q.clone(), ts: many_ts[..m].to_vec(), big: true });
+            }
+        }
+    }
+    v.push(
+        E1::new(
+            "big-rnsp",
+            &format!(
+                "{} cases: BFV/BGV x (N = 4: chains of 1..19{} primes; N = 8: {} primes; N = 256, 1024{} with 2..3 primes) x 2..3 plain moduli, and N = 4 with 3 primes x {} plain moduli: Rnsp public / relin / Galois keys seeded and expanded, Rnsp ciphertexts real + crafted at EVERY level (compact, 'full', 14..16 structured term sets), vectors of every length 0..20",
+                rcases.len(),
+                if deep { ", 33, 64" } else { "" },
+                if deep { "1..19, 33" } else { "8..10, 16..19" },
+                if deep { ", 4096; N = 64 with 9 primes" } else { "" },
+                if deep { "1..17" } else { "4, 8, 9, 16, 17" }
+            ),
+            order_cases(rcases, |c| (c.n * c.q.len() * c.q.len() * c.ts.len()) as u64).into_iter(),
+            move |c: &RCase| check_rnsp_in("big-rnsp", c, seed),
+        )
+        .deadline(std::time::Duration::from_secs(300))
+        .batch(1),
+    );
+    v
+}
+
 pub fn sections(cfg: &RunCfg) -> Vec<Box<dyn AnySection>> {
     let seed = cfg.seed;
     let deep = cfg.thorough();
@@ -2082,11 +3214,12 @@ pub fn sections(cfg: &RunCfg) -> Vec<Box<dyn AnySection>> {
             for bits in [vec![20usize, 25, 30], vec![8, 9, 16, 17], vec![57, 33, 60], vec![40, 40]] {
                 let q = he::chain(n, &bits);
                 for ts in [vec![17u64], vec![17, 97], vec![1 << 6, 257, 65537]] {
-                    rcases.push(RCase { scheme, n, q: q.clone(), ts });
+                    rcases.push(RCase { scheme, n, q: q.clone(), ts, big: false });
                 }
             }
         }
     }
     v.push(E1::new("rnsp", "BFV/BGV x N in {4,8} x 4 chains x 1..3 plain moduli: Rnsp ciphertexts (compact, 'full', all term subsets), public/relin/Galois keys, vectors", rcases.into_iter(), move |c: &RCase| check_rnsp(c, seed)));
+       v.extend(big_sections(cfg));
     v
 }
